@@ -77,10 +77,11 @@ func (idx *index) insert(ctx context.Context, p pointer, persist bool) error {
 	}
 
 	// prepare reads the pointers and the persist head, so it must run before the lock
-	// is released (as in update).
-	persistPointers := idx.indexPersist.prepare(idx.persistHead)
-	idx.mu.Unlock()
-	return persistPointers()
+	// is released. The persist itself also runs under the lock (as in Delete and
+	// GarbageCollect): otherwise two concurrent commits can write their snapshots in
+	// the opposite order and the older one, which lacks the other's domain, wins.
+	defer idx.mu.Unlock()
+	return idx.indexPersist.prepare(idx.persistHead)()
 }
 
 func (idx *index) overlap(tr telem.TimeRange) bool {
@@ -145,13 +146,12 @@ func (idx *index) update(ctx context.Context, p pointer, persist bool) error {
 
 	idx.persistHead = min(idx.persistHead, updateAt)
 
+	// The persist runs under the lock so that index snapshots reach the file in the
+	// order of the mutations they reflect.
+	defer idx.mu.Unlock()
 	if persist {
-		persistPointers := idx.indexPersist.prepare(idx.persistHead)
-		idx.mu.Unlock()
-		return persistPointers()
+		return idx.indexPersist.prepare(idx.persistHead)()
 	}
-
-	idx.mu.Unlock()
 	return nil
 }
 
